@@ -252,6 +252,15 @@ pub fn extract(src: &str) -> Vec<B> {
                 }
                 TagEnd::MetadataBlock(_) => {
                     meta = false;
+                    // the metadata text may arrive in several pieces: one Meta block
+                    let mut text = String::new();
+                    if let Some(Frame::Blocks(v)) = st.last_mut() {
+                        while let Some(B::Meta(t)) = v.last() {
+                            text = format!("{}{}", t, text);
+                            v.pop();
+                        }
+                        v.push(B::Meta(text.trim_end_matches('\n').to_string()));
+                    }
                 }
                 TagEnd::Link | TagEnd::Image => push_in(&mut st, In::Close),
                 _ => {}
@@ -897,7 +906,12 @@ pub fn doc_features(src: &str) -> Vec<String> {
                     }
                     add!("html-block");
                 }
-                Tag::MetadataBlock(_) => add!("front-matter"),
+                Tag::MetadataBlock(_) => {
+                    add!("front-matter");
+                    if range.start > 0 {
+                        add!("front-matter-not-at-start");
+                    }
+                }
                 Tag::Link { link_type, dest_url, title, .. } => {
                     add!("link");
                     if let Some(it) = items.last_mut() {
@@ -953,6 +967,13 @@ pub fn doc_features(src: &str) -> Vec<String> {
                 }
                 Tag::Emphasis | Tag::Strong | Tag::Strikethrough => {
                     add!("emphasis");
+                    // two emphasised runs with nothing between them (`*a*_b_`): written with one marker
+                    // style they merge
+                    if i > 0 {
+                        if let (Event::End(TagEnd::Emphasis), _) | (Event::End(TagEnd::Strong), _) = &evs[i - 1] {
+                            add!("adjacent-emphasis");
+                        }
+                    }
                 }
                 _ => {}
             },
